@@ -8,11 +8,12 @@ Definition expected_loop_funcs : list (string * string) := [
   ("NewEventLoop", "vm:=goja.New();loop:=&EventLoop{vm:vm,jobChan:make(chan func()),wakeupChan:make(chan struct{},1),enableConsole:true};loop.stopCond=sync.NewCond(&loop.stopLock);for _,opt:=range opts{opt(loop)};if loop.registry==nil{loop.registry=new(require.Registry)};loop.registry.Enable(vm);if loop.enableConsole{console.Enable(vm)};vm.Set(""setTimeout"",loop.setTimeout);vm.Set(""setInterval"",loop.setInterval);vm.Set(""setImmediate"",loop.setImmediate);vm.Set(""clearTimeout"",loop.clearTimeout);vm.Set(""clearInterval"",loop.clearInterval);vm.Set(""clearImmediate"",loop.clearImmediate);return loop");
   ("EnableConsole", "return func(loop*EventLoop){loop.enableConsole=enableConsole}");
   ("WithRegistry", "return func(loop*EventLoop){loop.registry=registry}");
-  ("EventLoop.schedule", "if fn,ok:=goja.AssertFunction(call.Argument(0));ok{delay:=call.Argument(1).ToInteger();var args[]goja.Value;if len(call.Arguments)>2{args=append(args,call.Arguments[2:]...)};f:=func(){fn(nil,args...)};loop.jobCount++var job*job;var ret goja.Value;if repeating{interval:=loop.newInterval(f);interval.start(loop,msToDuration(delay));job=&interval.job;ret=loop.vm.ToValue(interval)}else{timeout:=loop.newTimeout(f);timeout.start(loop,msToDuration(delay));job=&timeout.job;ret=loop.vm.ToValue(timeout)};job.idx=len(loop.jobs);loop.jobs=append(loop.jobs,job);return ret};return nil");
+  ("EventLoop.schedule", "if fn,ok:=goja.AssertFunction(call.Argument(0));ok{delay:=delayMillis(call.Argument(1));var args[]goja.Value;if len(call.Arguments)>2{args=append(args,call.Arguments[2:]...)};f:=func(){fn(nil,args...)};loop.jobCount++var job*job;var ret goja.Value;if repeating{interval:=loop.newInterval(f);interval.start(loop,msToDuration(delay));job=&interval.job;ret=loop.vm.ToValue(interval)}else{timeout:=loop.newTimeout(f);timeout.start(loop,msToDuration(delay));job=&timeout.job;ret=loop.vm.ToValue(timeout)};job.idx=len(loop.jobs);loop.jobs=append(loop.jobs,job);return ret};return goja.Undefined()");
+  ("delayMillis", "f:=math.Ceil(v.ToNumber().ToFloat());switch{case f!=f:return 0;case f>=math.MaxInt64:return math.MaxInt64;case f<=math.MinInt64:return math.MinInt64};return int64(f)");
   ("msToDuration", "const max=int64(math.MaxInt64/time.Millisecond);if ms>max{return time.Duration(math.MaxInt64)};if ms<-max{return time.Duration(math.MinInt64)};return time.Duration(ms)*time.Millisecond");
   ("EventLoop.setTimeout", "return loop.schedule(call,false)");
   ("EventLoop.setInterval", "return loop.schedule(call,true)");
-  ("EventLoop.setImmediate", "if fn,ok:=goja.AssertFunction(call.Argument(0));ok{var args[]goja.Value;if len(call.Arguments)>1{args=append(args,call.Arguments[1:]...)};f:=func(){fn(nil,args...)};return loop.vm.ToValue(loop.addImmediate(f))};return nil");
+  ("EventLoop.setImmediate", "if fn,ok:=goja.AssertFunction(call.Argument(0));ok{var args[]goja.Value;if len(call.Arguments)>1{args=append(args,call.Arguments[1:]...)};f:=func(){fn(nil,args...)};return loop.vm.ToValue(loop.addImmediate(f))};return goja.Undefined()");
   ("EventLoop.SetTimeout", "t:=loop.newTimeout(func(){fn(loop.vm)});if loop.addAuxJob(func(){t.start(loop,timeout);loop.jobCount++t.idx=len(loop.jobs);loop.jobs=append(loop.jobs,&t.job)}){return t};return nil");
   ("EventLoop.ClearTimeout", "loop.addAuxJob(func(){loop.clearTimeout(t)})");
   ("EventLoop.SetInterval", "i:=loop.newInterval(func(){fn(loop.vm)});if loop.addAuxJob(func(){i.start(loop,timeout);loop.jobCount++i.idx=len(loop.jobs);loop.jobs=append(loop.jobs,&i.job)}){return i};return nil");
